@@ -1671,6 +1671,18 @@ impl Term<Name> {
             lookup.combine(var_occurrence_no_stack(term, remaining))
         };
 
+        // Same, for a branch whose `delay` wrapper has been peeled off below: an occurrence
+        // in there only executes if that branch is taken, so it still counts as delayed.
+        let combine_delayed_capped = |lookup: VarLookup, term: &Term<Name>| {
+            if lookup.occurrences >= cap {
+                return lookup;
+            }
+
+            let remaining = cap - lookup.occurrences;
+
+            lookup.combine(var_occurrence_no_stack(term, remaining).delay_if_found(1))
+        };
+
         let Term::Apply {
             function: builtin,
             argument: condition,
@@ -1695,7 +1707,7 @@ impl Term<Name> {
             let lookup = var_occurrence_stack(builtin, arg_stack, cap);
             let lookup = combine_capped(lookup, condition);
             let lookup = combine_capped(lookup, then_arg);
-            return combine_capped(lookup, else_arg);
+            return combine_delayed_capped(lookup, else_arg);
         };
 
         match builtin.as_ref() {
@@ -1736,16 +1748,16 @@ impl Term<Name> {
                 } else {
                     let lookup = var_occurrence_stack(builtin, arg_stack, cap);
                     let lookup = combine_capped(lookup, condition);
-                    let lookup = combine_capped(lookup, then_arg);
-                    combine_capped(lookup, else_arg)
+                    let lookup = combine_delayed_capped(lookup, then_arg);
+                    combine_delayed_capped(lookup, else_arg)
                 }
             }
 
             _ => {
                 let lookup = var_occurrence_stack(builtin, arg_stack, cap);
                 let lookup = combine_capped(lookup, condition);
-                let lookup = combine_capped(lookup, then_arg);
-                combine_capped(lookup, else_arg)
+                let lookup = combine_delayed_capped(lookup, then_arg);
+                combine_delayed_capped(lookup, else_arg)
             }
         }
     }
